@@ -60,7 +60,7 @@ void h_parse_string_b(void)
     VF_INIT();
     b->content = content; b->length = n; b->offset = 0; b->depth = 0;
     b->hooks.allocate = vf_alloc; b->hooks.deallocate = vf_free; b->hooks.reallocate = NULL;
-    for (i = 0; i < PS_N; i++) { snap[i] = content[i]; }
+    for (i = 0; i < PS_N; i++) { content[i] = nondet_uchar(); snap[i] = content[i]; }   /* explicit assignments: the bytes show up in counterexample traces (native replay) */
     before = *item;
     want = ref_decode(content, n, &out_len, &end);
 
